@@ -458,6 +458,26 @@ def c13_grid(job, acc):
                 acc.violation("C13", "Scoreboard.idxToDate-differs", dict(res=res, slot=k, cy=a, py=b), [], None)
         acc.sig(("C13", "far", res))
         acc.count("nontrivial")
+    # the edge of the calendar: instants more than 2^31 slots away (a leave "until 7000-01-01", a gap clamped to
+    # datetime.max) - reachable from project text, so both halves must agree there too
+    if w == 1 % W:
+        for res in (60, 300, 3600):
+            start = datetime(2024, 1, 1)
+            fp = FakeProject(start, res)
+            P = m["pm"].Project
+            sb = m["sb"].Scoreboard(start, start + timedelta(days=30), res)
+            for d in (datetime(6107, 1, 31), datetime(6200, 1, 1), datetime(7000, 1, 1), datetime(9999, 12, 31, 23, 59), datetime.max.replace(microsecond=0), datetime(1, 1, 1)):
+                a, b = call("cy", P.dateToIdx, fp, d), call("py", P.dateToIdx, fp, d)
+                n += 1
+                if a != b:
+                    acc.violation("C13", "Project.dateToIdx-differs", dict(res=res, date=d, cy=a, py=b, where="calendar edge"), [], None)
+                for force in (True, False):
+                    a, b = call("cy", sb.dateToIdx, d, force), call("py", sb.dateToIdx, d, force)
+                    n += 1
+                    if a != b:
+                        acc.violation("C13", "Scoreboard.dateToIdx-differs", dict(res=res, date=d, force=force, cy=a, py=b, where="calendar edge"), [], None)
+            acc.sig(("C13", "edge", res))
+            acc.count("nontrivial")
     # large indices (int32 range of idx * granularity)
     if w == 0:
         fp = FakeProject(datetime(2025, 1, 1), 3600)
